@@ -2,6 +2,7 @@
 package main
 
 import (
+	"math"
 	"fmt"
 	"strings"
 
@@ -33,6 +34,7 @@ func main() {
 
 // extra types and values for the families named in the property's why_tests_cant
 func extraTypes() []*lat.Spec {
+	inf, mx := math.Inf(1), math.MaxFloat64
 	return []*lat.Spec{
 		lat.StrSz(1, 1), lat.StrSz(2, 2), lat.StrSz(0, 3), lat.StrSz(4, 4),
 		lat.Enum(false, "a", "b", "true"), lat.Enum(true, "abc", "é"), lat.Enum(true, "a", "b"), lat.Enum(false, ""),
@@ -49,11 +51,17 @@ func extraTypes() []*lat.Spec {
 		lat.W("Type", lat.Int(0, 5)), lat.W("Type", lat.A("Numeric")), lat.W("Type", lat.Var(lat.Int(0, 5), lat.A("String"))),
 		lat.W("NotUndef", lat.W("Optional", lat.Int(0, 5))), lat.W("Optional", lat.W("NotUndef", lat.A("Any"))),
 		lat.Coll(0, 0), lat.Coll(2, 2),
+		// Float ranges with infinite bounds and with the largest finite floats as bounds (constructor route; Float[-Inf, +Inf]
+		// is the unbounded type, the only one that holds NaN), alone and in member positions
+		lat.FltB(-inf, inf), lat.FltB(-inf, -inf), lat.FltB(inf, inf), lat.FltB(-inf, 1.5), lat.FltB(0, inf), lat.FltB(-mx, mx), lat.FltB(mx, mx), lat.FltB(mx, inf),
+		lat.FltB(-inf, -mx), lat.FltB(-inf, mx), lat.Arr(lat.FltB(0, inf), 0, lat.Max), lat.Arr(lat.A("FloatDefault"), 0, lat.Max), lat.W("Optional", lat.FltB(-inf, 1.5)),
+		lat.Var(lat.FltB(inf, inf), lat.A("String")), lat.Hsh(lat.A("String"), lat.A("FloatDefault"), 0, lat.Max), lat.Tup(lat.A("FloatDefault"), lat.FltB(-mx, mx)),
+		lat.Struct(lat.Member{Name: "a", Kind: 0, T: lat.A("FloatDefault")}), lat.W("NotUndef", lat.A("FloatDefault")),
 	}
 }
 
 func extraValues() []*lat.VSpec {
-	return []*lat.VSpec{
+	return append([]*lat.VSpec{
 		lat.VS(""), lat.VS("é"), lat.VS("éé"), lat.VS("aé€"), lat.VS("A"), lat.VS("ABC"), lat.VS("É"), lat.VS("true"), lat.VS("aaa"), lat.VS("bb"),
 		lat.VS("yes"), lat.VS("YES"), lat.VS("no"), lat.VS("NO"), lat.VS("maybe"), lat.VS("MAYBE"), lat.VS("yN"), lat.VS("Yn"), lat.VS("a\nb"), lat.VS("c\nd"), lat.VS("cxd"),
 		lat.VS("x\na"), lat.VS("x\nb"), lat.VS("aab"), lat.VS("(yes"), lat.VS("no)"),
@@ -61,7 +69,7 @@ func extraValues() []*lat.VSpec {
 		lat.VH(lat.VS("a"), lat.VI(1)), lat.VH(lat.VS("a"), lat.VI(1), lat.VS("b"), lat.VS("x")), lat.VH(lat.VS("b"), lat.VS("x")), lat.VH(lat.VS("a"), lat.VU()),
 		lat.VH(lat.VS("a"), lat.VI(1), lat.VS("c"), lat.VI(1)), lat.VH(), lat.VH(lat.VI(1), lat.VI(1)), lat.VH(lat.VS("a"), lat.VI(7)),
 		lat.VT(lat.Int(1, 2)), lat.VT(lat.Int(0, 9)), lat.VT(lat.A("String")), lat.VT(lat.Flt(0, 1)), lat.VT(lat.Var(lat.Int(1, 2), lat.A("String"))),
-	}
+	}, lat.NonFiniteValues()...) // NaN, +Inf, -Inf, the largest finite floats, -0.0: alone and inside collections
 }
 
 func kindMatches(t *types.VerifTy, v *types.VerifVal) bool {
